@@ -1,9 +1,14 @@
-"""C04 — the pairing is bilinear, non-degenerate and maps into the order-r group (DESIGN §2 C04)."""
+"""C04 — the pairing is bilinear, non-degenerate and maps into the order-r group (DESIGN §2 C04).
+
+The strategies and run functions are parametric in the pairing context (engine/pcctx_g.py): engine.pcctx for the
+k = 12 sets, engine.pcctx_k for the sets of embedding degree 8, 16, 18, 24 and 48 (thorough tier, targets *-k)."""
 import struct
 
 from hypothesis import strategies as st
 
 from engine import ecctx, pcctx
+from engine import pcctx_g as G
+from engine import pcctx54
 from engine.core import Target, Violation, Unsupported
 from engine.gen import ints
 from engine.proto import Prog
@@ -18,21 +23,65 @@ RULE = ("inputs P = [x]G1, Q = [y]G2 computed by the REFERENCE curve arithmetic 
         "e([x]G1,[y]G2) = g^(xy mod r) with g = e(G1,G2) of the same variant, g != 1, g^r = 1, identity in a slot => 1, "
         "pc_map_sim(list) = g^(sum x_i y_i), empty list => 1, representation independence, final exponentiation is a "
         "homomorphism into the order-r group; each of optimal-ate (pc_map), Tate and Weil separately. "
+        "thorough tier: the same generators and oracles (targets *-k) on every other parameter set the library selects: "
+        "k = 12 at 377 / 382 / 383 / 446 / 455 / 638 bits, k = 8 GMT8_P544, k = 16 K16_P330 AFG16_P510 FM16_P765 "
+        "AFG16_P766, k = 18 K18_P354 K18_P508 K18_P638 FM18_P768, k = 24 B24_P315 B24_P317 B24_P509, k = 48 B48_P575, "
+        "k = 54 SG54_P569 (pp_map_k54 on bare Fp9 coordinates), "
+        "each with the variants its degree has (oatep / tatep / weilp for 16 and 18, oatep for 8, one function for 24 "
+        "and 48), target-group arithmetic in the reference tower of that degree built from parameters read from the "
+        "library (engine/ref/ext.py, every level checked to be a field). "
         "non-trivial: both inputs non-identity and xy mod r not in {0,1}, or a list of >= 2 pairs containing an identity")
 ASSUMPTIONS = ["pairing inputs are members of G1/G2 or the identity (the pairing's contract; non-members are C12)",
                "[x]G1 and [y]G2 are computed by the reference so that a multiplication error cannot cancel out",
-               "the tower non-residues and twist coefficients are read from the library and checked for consistency"]
-BUDGET_S = {"quick": 260, "thorough": 1700}
+               "the tower non-residues and twist coefficients are read from the library and checked for consistency",
+               "sweep (k != 12): one parameter set per build configuration, the one pc_param_set_any() installs; the "
+               "G2 generator, r and the twist are read from the library and validated by the reference ([r]G2 = O on "
+               "the reference twist over Fp^(k/d)); for B48_P575 the G2 scalars of a job come from a pool of three "
+               "values (a reference multiple over Fp8 costs 2 s), all G1 scalars stay free",
+               "SG54_P569 (k = 54): no pairing layer, no G2 type over Fp9; target pair-bilin-54 feeds pp_map_k54 the one "
+               "G2 point published in the library's test (verified by the reference to have order r on y^2 = x^3 + b' "
+               "over Fp9) and its reference multiples, G1 points affine (the function reads p->x, p->y as they are); all "
+               "its non-identity cases currently end in the open finding C10-fp54_frb-table-index"]
+BUDGET_S = {"quick": 260, "thorough": 1800}
 JOB_SIZE = {"quick": 120, "thorough": 400}
 
 VARIANTS = ["pc_map", "pp_map_oatep_k12", "pp_map_tatep_k12", "pp_map_weilp_k12"]
-SIMV = {"pc_map": "pc_map_sim", "pp_map_oatep_k12": "pp_map_sim_oatep_k12", "pp_map_tatep_k12": "pp_map_sim_tatep_k12",
-        "pp_map_weilp_k12": "pp_map_sim_weilp_k12"}
+# the variants of the other embedding degrees (include/relic_pp.h): k = 16 and 18 have the three Miller loops, k = 8 only
+# the optimal ate pairing, k = 24 and 48 a single function, which is what pc_map expands to
+VARIANTS_K = {8: ["pc_map", "pp_map_oatep_k8"],
+              16: ["pc_map", "pp_map_oatep_k16", "pp_map_tatep_k16", "pp_map_weilp_k16"],
+              18: ["pc_map", "pp_map_oatep_k18", "pp_map_tatep_k18", "pp_map_weilp_k18"],
+              24: ["pc_map", "pp_map_k24"], 48: ["pc_map", "pp_map_k48"]}
 _G = {}
 
 
+def variants(env, cfg, x):
+    if x.kemb == 12:
+        return VARIANTS
+    ops = env.runner(cfg).ops()
+    return [v for v in VARIANTS_K[x.kemb] if v in ops and simv(v) in ops]
+
+
+def simv(variant):
+    """name of the multi-pairing of a variant: pc_map -> pc_map_sim, pp_map_<v>_kN -> pp_map_sim_<v>_kN"""
+    return "pc_map_sim" if variant == "pc_map" else "pp_map_sim_" + variant[len("pp_map_"):]
+
+
+SIMV = {v: simv(v) for v in VARIANTS}
+
+
 def gt_slot(p, x):
-    return p.new("FPX", pcctx.enc_gt(x, x.F12.one))
+    return p.new("FPX", G.enc_gt(x, x.FT.one))
+
+
+def g2mul(x, b):
+    """[b]G2 by the reference (b reduced modulo r: G2 has order r by the context's own check)"""
+    b %= x.r
+    if b == 0:
+        return None
+    if x.K >= 8 or b < (1 << 20) or x.r - b < (1 << 20):
+        return G.small_multiple2(x, b)         # cached (the slow towers draw their scalars from a small pool)
+    return x.E2c.mul(b, x.G2)
 
 
 def base_value(env, cfg, x, variant):
@@ -43,25 +92,30 @@ def base_value(env, cfg, x, variant):
 
     def build(p):
         s1 = p.new("EP", ecctx.enc_point(x.base, x.G1))
-        s2 = p.new("EP2", pcctx.enc_point2(x, x.G2))
+        s2 = p.new("EP2", G.enc_g2(x, x.G2))
         sg = gt_slot(p, x)
         p.call(variant, sg, s1, s2)
         p.dump(sg)
         return sg
-    res, sg = pcctx.run(env, cfg, x, build, 0x33)
+    res, sg = G.run(env, cfg, x, build, 0x33)
     c = res.calls[0]
     if c.unsupported:
         raise Unsupported()
     if c.errored or c.ub:
         raise Violation("%s(G1, G2) reported an error / UB" % variant, call=repr(c))
-    g = pcctx.dec_gt(x, res.dumps[sg], variant)
-    F12 = x.F12
+    g = G.dec_gt(x, res.dumps[sg], variant)
+    F12 = x.FT
     if F12.eq(g, F12.one):
-        raise Violation("%s: e(G1, G2) is the identity (degenerate)" % variant, cid=x.cid)
+        raise Violation("%s: e(G1, G2) is the identity (degenerate)" % variant, cid=x.cid, **ctx_details(x, variant))
     if not F12.eq(F12.pow(g, x.r), F12.one):
-        raise Violation("%s: e(G1, G2)^r != 1" % variant, cid=x.cid)
+        raise Violation("%s: e(G1, G2)^r != 1" % variant, cid=x.cid, order_not_r=True, **ctx_details(x, variant))
     _G[key] = g
     return g
+
+
+def ctx_details(x, variant):
+    """what the known-finding predicates key on: embedding degree, twist type (1 = D, 2 = M), variant"""
+    return dict(kemb=x.kemb, ttype=x.ttype, fn=variant)
 
 
 def rep2(x):
@@ -69,9 +123,9 @@ def rep2(x):
     def s(draw):
         kind = draw(st.sampled_from(["basic", "basic", "projc", "jacob"]))
         p = x.F.p
-        z = (1, 0)
+        z = [1] + [0] * (x.K - 1)
         if kind != "basic":
-            z = (draw(ints.uniform(1, p - 1)), draw(st.one_of(st.just(0), ints.uniform(0, p - 1))))
+            z = [draw(ints.uniform(1, p - 1))] + [draw(st.one_of(st.just(0), ints.uniform(0, p - 1))) for _ in range(x.K - 1)]
         return {"kind": kind, "z": list(z), "inf": draw(st.integers(0, 1))}
     return s()
 
@@ -105,48 +159,65 @@ def chk(c, what):
 
 # ------------------------------------------------------------------------------ bilinearity
 
+def pool_scalars(env, x, n=3):
+    """slow towers (G2 over Fp8): the G2 scalars come from a few per-job values (the reference multiple is cached);
+    the point the library sees is still a generic member, and every G1 scalar stays free"""
+    import hashlib
+    return [int.from_bytes(hashlib.blake2b(("c04|%d|%d|%d" % (env.job_seed, x.cid, i)).encode(),
+                                           digest_size=64).digest() * 2, "big") % (x.r - 1) + 1 for i in range(n)]
+
+
 def strat_bilin(env, cfg):
-    x = pcctx.job_ctx(env, cfg)
+    x = G.job_ctx(env, cfg)
+    vs = variants(env, cfg, x)
 
     @st.composite
     def s(draw):
         sc = ints.scalar(x.r, x.r.bit_length() + 64)
         small = st.sampled_from([0, 1, 2, 3, -1, x.r - 1, x.r, x.r + 1, 5, 7])
-        return dict(cid=x.cid, variant=draw(st.sampled_from(VARIANTS)), x=draw(st.one_of(sc, small)),
-                    y=draw(st.one_of(sc, small)), rp=draw(rep1(x)), rq=draw(rep2(x)), poison=draw(st.integers(0, 255)))
+        scy = sc
+        if x.K >= 8:
+            pool = pool_scalars(env, x)
+            scy = st.sampled_from(pool + [-pool[0], pool[0] + x.r, x.r - pool[1]])
+        return dict(cid=x.cid, variant=draw(st.sampled_from(vs)), x=draw(st.one_of(sc, small)),
+                    y=draw(st.one_of(scy, small)), rp=draw(rep1(x)), rq=draw(rep2(x)), poison=draw(st.integers(0, 255)))
     return s()
 
 
 def run_bilin(env, cfg, case):
-    x = pcctx.ctx_for(env, cfg, case["cid"])
+    x = G.ctx_for(env, cfg, case["cid"])
     variant = case["variant"]
-    g = base_value(env, cfg, x, variant)
-    F12 = x.F12
+    F12 = x.FT
     a, b = case["x"], case["y"]
     P = x.base.E.mul(a, x.G1)
-    Q = x.E2c.mul(b % x.r, x.G2) if b % x.r else None
+    Q = g2mul(x, b)
     rp, rq = kinds_ok(x, case["rp"]), kinds_ok(x, case["rq"])
-    want = F12.pow(g, (a * b) % x.r)
+    if P is None or Q is None:
+        want = F12.one                       # identity in a slot: no reference value of the variant is needed
+    else:
+        want = F12.pow(base_value(env, cfg, x, variant), (a * b) % x.r)
     what = "%s[cid=%d]" % (variant, x.cid)
 
     def build(p):
         s1 = p.new("EP", ecctx.enc_point(x.base, P, rp["kind"], rp["z"], rp["inf"]))
-        s2 = p.new("EP2", pcctx.enc_point2(x, Q, rq["kind"], tuple(rq["z"]), rq["inf"]))
+        s2 = p.new("EP2", G.enc_g2(x, Q, rq["kind"], rq["z"], rq["inf"]))
         sg = gt_slot(p, x)
         p.call(variant, sg, s1, s2)
         p.dump(sg)
         return sg, s1, s2
     for pz in (case["poison"], case["poison"] ^ 0xFF):
-        res, (sg, s1, s2) = pcctx.run(env, cfg, x, build, pz)
+        res, (sg, s1, s2) = G.run(env, cfg, x, build, pz)
         c = res.calls[0]
         chk(c, what)
-        got = pcctx.dec_gt(x, res.dumps[sg], what)
+        got = G.dec_gt(x, res.dumps[sg], what)
         if not F12.eq(got, want):
-            raise Violation("%s: e([x]G1,[y]G2) != e(G1,G2)^(xy mod r)" % what, x=a, y=b,
-                            identity_expected=(P is None or Q is None))
+            raise Violation("%s: e([x]G1,[y]G2) != e(G1,G2)^(xy mod r)" % what, x=a, y=b, not_bilinear=True,
+                            identity_expected=(P is None or Q is None), **ctx_details(x, variant))
         if s1 in c.changed or s2 in c.changed:
             raise Violation("%s modified its input" % what)
     lab = ["variant:" + variant, "cid:%d" % x.cid, "reps:%s+%s" % (rp["kind"], rq["kind"])]
+    if x.kemb != 12:
+        lab.append("k=%d:%s" % (x.kemb, variant))
     if P is None or Q is None:
         lab.append("identity-in-slot")
     if a < 0 or b < 0:
@@ -160,39 +231,43 @@ def run_bilin(env, cfg, case):
 # ------------------------------------------------------------------------------ multi-pairing
 
 def strat_sim(env, cfg):
-    x = pcctx.job_ctx(env, cfg)
+    x = G.job_ctx(env, cfg)
+    vs = variants(env, cfg, x)
 
     @st.composite
     def s(draw):
         n = draw(st.sampled_from([0, 1, 2, 2, 3, 4, 6]))
         small = st.sampled_from([0, 0, 1, 2, -1, x.r - 1, x.r, 3])
         sc = st.one_of(small, ints.uniform(1, x.r - 1), small)
+        scy = sc
+        if x.K >= 8:
+            scy = st.one_of(small, st.sampled_from(pool_scalars(env, x)), small)
         pairs = []
         for i in range(n):
             if i and draw(st.integers(0, 4)) == 0:
                 a, b = pairs[-1]
                 pairs.append([-a, b])            # cancelling pair
             else:
-                pairs.append([draw(sc), draw(sc)])
+                pairs.append([draw(sc), draw(scy)])
         # every pair in its own representation: the multi-pairing normalises (and compacts) its inputs itself
         reps = [[draw(rep1(x)), draw(rep2(x))] for _ in range(n)] if draw(st.integers(0, 2)) else []
-        return dict(cid=x.cid, variant=draw(st.sampled_from(VARIANTS)), pairs=pairs, reps=reps,
+        return dict(cid=x.cid, variant=draw(st.sampled_from(vs)), pairs=pairs, reps=reps,
                     poison=draw(st.integers(0, 255)))
     return s()
 
 
 def run_sim(env, cfg, case):
-    x = pcctx.ctx_for(env, cfg, case["cid"])
+    x = G.ctx_for(env, cfg, case["cid"])
     variant = case["variant"]
-    g = base_value(env, cfg, x, variant)
-    F12 = x.F12
+    F12 = x.FT
     pairs = case["pairs"]
     n = len(pairs)
     Ps = [x.base.E.mul(a, x.G1) for a, _ in pairs]
-    Qs = [(x.E2c.mul(b % x.r, x.G2) if b % x.r else None) for _, b in pairs]
+    Qs = [g2mul(x, b) for _, b in pairs]
     e = sum(a * b for a, b in pairs) % x.r
-    want = F12.pow(g, e)
-    what = "%s[cid=%d](m=%d)" % (SIMV[variant], x.cid, n)
+    live = sum(1 for P, Q in zip(Ps, Qs) if P is not None and Q is not None)
+    want = F12.pow(base_value(env, cfg, x, variant), e) if live else F12.one
+    what = "%s[cid=%d](m=%d)" % (simv(variant), x.cid, n)
 
     reps = case.get("reps") or [[dict(kind="basic", z=1, inf=0), dict(kind="basic", z=[1, 0], inf=0)]] * n
     reps = [[kinds_ok(x, a), kinds_ok(x, b)] for a, b in reps]
@@ -200,23 +275,25 @@ def run_sim(env, cfg, case):
     def build(p):
         b1 = b"".join(ecctx.enc_point(x.base, P, r[0]["kind"], r[0]["z"], r[0]["inf"]) for P, r in zip(Ps, reps))
         s1 = p.new("EPV", struct.pack("<II", n, n) + b1)
-        b2 = b"".join(pcctx.enc_point2(x, Q, r[1]["kind"], tuple(r[1]["z"]), r[1]["inf"])[1:] for Q, r in zip(Qs, reps))
-        s2 = p.new("EP2V", bytes([2]) + struct.pack("<II", n, n) + b2)
+        s2 = p.new("EP2V", G.g2_vec(x, [G.enc_g2(x, Q, r[1]["kind"], r[1]["z"], r[1]["inf"]) for Q, r in zip(Qs, reps)]))
         sg = gt_slot(p, x)
-        p.call(SIMV[variant], sg, s1, s2, n)
+        p.call(simv(variant), sg, s1, s2, n)
         p.dump(sg)
         return sg, s1, s2
     for pz in (case["poison"], case["poison"] ^ 0xFF):
-        res, (sg, s1, s2) = pcctx.run(env, cfg, x, build, pz)
+        res, (sg, s1, s2) = G.run(env, cfg, x, build, pz)
         c = res.calls[0]
         chk(c, what)
-        got = pcctx.dec_gt(x, res.dumps[sg], what)
+        got = G.dec_gt(x, res.dumps[sg], what)
         if not F12.eq(got, want):
-            raise Violation("%s: multi-pairing != product of the individual pairings" % what, pairs=pairs)
+            raise Violation("%s: multi-pairing != product of the individual pairings" % what, pairs=pairs,
+                            not_bilinear=True, identity_expected=(live == 0), **ctx_details(x, simv(variant)))
         if s1 in c.changed or s2 in c.changed:
             raise Violation("%s modified its input" % what)
     ident = sum(1 for P, Q in zip(Ps, Qs) if P is None or Q is None)
-    lab = ["variant:" + SIMV[variant], "cid:%d" % x.cid, "sim:m=%d" % n, "sim:identities=%d" % min(ident, 3)]
+    lab = ["variant:" + simv(variant), "cid:%d" % x.cid, "sim:m=%d" % n, "sim:identities=%d" % min(ident, 3)]
+    if x.kemb != 12:
+        lab.append("k=%d:%s" % (x.kemb, simv(variant)))
     if any(a["kind"] != "basic" or b["kind"] != "basic" for a, b in reps):
         lab.append("sim:projective-input")
     return (n >= 2 and ident >= 1) or (n >= 2 and e not in (0, 1)) or n == 0, lab
@@ -225,18 +302,19 @@ def run_sim(env, cfg, case):
 # ------------------------------------------------------------------------------ final exponentiation
 
 def strat_fexp(env, cfg):
-    x = pcctx.job_ctx(env, cfg)
+    x = G.job_ctx(env, cfg)
     p = x.F.p
+    N = x.kemb
 
     @st.composite
     def s(draw):
         def elem():
             k = draw(st.integers(0, 3))
             if k == 0:
-                return [draw(st.sampled_from([0, 1, 2, p - 1])) for _ in range(12)]
-            v = [draw(ints.uniform(0, p - 1)) for _ in range(12)]
+                return [draw(st.sampled_from([0, 1, 2, p - 1])) for _ in range(N)]
+            v = [draw(ints.uniform(0, p - 1)) for _ in range(N)]
             if k == 1:
-                for i in range(12):
+                for i in range(N):
                     if draw(st.booleans()):
                         v[i] = 0
             return v
@@ -246,37 +324,126 @@ def strat_fexp(env, cfg):
 
 
 def run_fexp(env, cfg, case):
-    x = pcctx.ctx_for(env, cfg, case["cid"])
-    F12 = x.F12
+    x = G.ctx_for(env, cfg, case["cid"])
+    F12 = x.FT
     f1, f2 = F12.unflatten(case["f1"]), F12.unflatten(case["f2"])
     if F12.is_zero(f1) or F12.is_zero(f2):
         raise Unsupported()
     f3 = F12.mul(f1, f2)
-    what = "pp_exp_k12[cid=%d]" % x.cid
+    fn = G.opname(x, "pp_exp_k12")
+    what = "%s[cid=%d]" % (fn, x.cid)
 
     def build(p):
         outs = []
         for f in (f1, f2, f3):
-            sa = p.new("FPX", pcctx.enc_gt(x, f))
+            sa = p.new("FPX", G.enc_gt(x, f))
             sc = gt_slot(p, x)
-            p.call("pp_exp_k12", sc, sa)
+            p.call(fn, sc, sa)
             p.dump(sc)
             outs.append(sc)
         return outs
-    res, outs = pcctx.run(env, cfg, x, build, case["poison"])
+    res, outs = G.run(env, cfg, x, build, case["poison"])
     for c in res.calls:
         chk(c, what)
-    e1, e2, e3 = (pcctx.dec_gt(x, res.dumps[s_], what) for s_ in outs)
+    e1, e2, e3 = (G.dec_gt(x, res.dumps[s_], what) for s_ in outs)
     if not F12.eq(F12.mul(e1, e2), e3):
         raise Violation("%s is not multiplicative: exp(f1 f2) != exp(f1) exp(f2)" % what)
     if not F12.eq(F12.pow(e1, x.r), F12.one):
         raise Violation("%s: result does not have order dividing r" % what)
-    return True, ["op:pp_exp_k12", "cid:%d" % x.cid]
+    return True, ["op:" + fn, "cid:%d" % x.cid]
+
+
+# ------------------------------------------------------------------------------ embedding degree 54 (pp_map_k54 only)
+
+def strat_bilin54(env, cfg):
+    x = pcctx54.job_ctx(env, cfg)
+    pool = pool_scalars(env, x, 2)
+
+    @st.composite
+    def s(draw):
+        sc = ints.scalar(x.r, x.r.bit_length() + 64)
+        small = st.sampled_from([0, 1, 2, 3, -1, x.r - 1, x.r, x.r + 1, 5, 7])
+        # G2 scalars from a small set: a reference multiple on the twist over Fp9 costs a second
+        scy = st.sampled_from([0, 1, 1, 2, 3, -1, -2, x.r, x.r + 1] + pool + [-pool[0]])
+        return dict(cid=x.cid, variant="pp_map_k54", x=draw(st.one_of(sc, small)), y=draw(scy),
+                    poison=draw(st.integers(0, 255)))
+    return s()
+
+
+def base_value54(env, cfg, x):
+    key = (cfg, x.cid, "pp_map_k54")
+    if key in _G:
+        return _G[key]
+
+    def build(p):
+        s1 = p.new("EP", ecctx.enc_point(x.base, x.G1))
+        ex, ey = pcctx54.enc_q(x, x.Q0)
+        sx, sy = p.new("FPX", ex), p.new("FPX", ey)
+        sg = p.new("FPX", pcctx54.enc_gt(x, x.FT.one))
+        p.call("pp_map_k54", sg, s1, sx, sy)
+        p.dump(sg)
+        return sg
+    res, sg = pcctx54.run(env, cfg, x, build, 0x33)
+    chk(res.calls[0], "pp_map_k54(G1, Q0)")
+    g = pcctx54.dec_gt(x, res.dumps[sg], "pp_map_k54")
+    FT = x.FT
+    if FT.eq(g, FT.one):
+        raise Violation("pp_map_k54: e(G1, Q0) is the identity (degenerate)", cid=x.cid, kemb=54, fn="pp_map_k54")
+    if not FT.eq(FT.pow(g, x.r), FT.one):
+        raise Violation("pp_map_k54: e(G1, Q0)^r != 1", cid=x.cid, order_not_r=True, kemb=54, fn="pp_map_k54")
+    _G[key] = g
+    return g
+
+
+def run_bilin54(env, cfg, case):
+    x = pcctx54.job_ctx(env, cfg)
+    if x.cid != case["cid"]:
+        raise Unsupported()
+    FT = x.FT
+    a, b = case["x"], case["y"]
+    P = x.base.E.mul(a, x.G1)
+    Q = pcctx54.g2mul(x, b)
+    if P is None or Q is None:
+        want = FT.one
+    else:
+        want = FT.pow(base_value54(env, cfg, x), (a * b) % x.r)
+    what = "pp_map_k54[cid=%d]" % x.cid
+
+    def build(p):
+        # the function reads p->x, p->y as they are: G1 points are passed in affine coordinates (what ep_rand /
+        # ep_mul deliver to the callers in the library's own test)
+        s1 = p.new("EP", ecctx.enc_point(x.base, P))
+        ex, ey = pcctx54.enc_q(x, Q)
+        sx, sy = p.new("FPX", ex), p.new("FPX", ey)
+        sg = p.new("FPX", pcctx54.enc_gt(x, FT.one))
+        p.call("pp_map_k54", sg, s1, sx, sy)
+        p.dump(sg)
+        return sg, (s1, sx, sy)
+    for pz in (case["poison"], case["poison"] ^ 0xFF):
+        res, (sg, ins) = pcctx54.run(env, cfg, x, build, pz)
+        c = res.calls[0]
+        chk(c, what)
+        got = pcctx54.dec_gt(x, res.dumps[sg], what)
+        if not FT.eq(got, want):
+            raise Violation("%s: e([x]G1,[y]Q0) != e(G1,Q0)^(xy mod r)" % what, x=a, y=b, not_bilinear=True,
+                            identity_expected=(P is None or Q is None), kemb=54, fn="pp_map_k54")
+        if any(s_ in c.changed for s_ in ins):
+            raise Violation("%s modified its input" % what)
+    lab = ["variant:pp_map_k54", "cid:%d" % x.cid, "k=54:pp_map_k54"]
+    if P is None or Q is None:
+        lab.append("identity-in-slot")
+    if a < 0 or b < 0:
+        lab.append("scalar:negative")
+    if abs(a) >= x.r or abs(b) >= x.r:
+        lab.append("scalar:>=r")
+    return P is not None and Q is not None and (a * b) % x.r not in (0, 1), lab
 
 
 def self_test():
     rec.self_test()
     rext.self_test()
+    from engine.ref import sg54
+    sg54.self_test()
 
 
 def _cfgs():
@@ -285,10 +452,63 @@ def _cfgs():
 
 OPTIONAL_CFGS = ["p381-qnres"]
 
-TARGETS = [
+# thorough sweep over the other parameter sets (one per build configuration unless noted):
+#   k = 12 at the other field sizes (engine/pcctx.py): B12_P377, BN_P382, B12_P383, BN_P446 + B12_P446, B12_P455,
+#          BN_P638 + B12_P638 (pf-638-q: the k = 12 pairing layer exists at 638 bits only with FP_QNRES)
+#   k = 8  GMT8_P544;  k = 16  K16_P330, AFG16_P510, FM16_P765, AFG16_P766;  k = 18  K18_P354, K18_P508, K18_P638,
+#          FM18_P768;  k = 24  B24_P315, B24_P317, B24_P509;  k = 48  B48_P575 (engine/pcctx_k.py)
+SWEEP12 = ["pf-377", "pf-382", "pf-383", "pf-446", "pf-455", "pf-638-q"]
+SWEEPK = ["pf-544", "pf-330", "pf-510", "pf-765-b", "pf-766-b", "pf-354", "pf-508", "pf-638", "pf-768", "pf-315", "pf-317",
+          "pf-509"]
+SWEEP48 = ["pf-575-q"]
+SWEEP54 = ["pf-569"]          # SG54_P569: pp_map_k54 only (engine/pcctx54.py)
+OPTIONAL_CFGS = OPTIONAL_CFGS + SWEEP12 + SWEEPK + SWEEP48 + SWEEP54
+
+
+def _sweep(name, strat, run, n12, nk, n48):
+    return [Target(name, strat, run, {"quick": [], "thorough": SWEEP48}, quick=1, thorough=n48, job_size={"quick": 8, "thorough": 8}),
+            Target(name, strat, run, {"quick": [], "thorough": SWEEPK}, quick=1, thorough=nk, job_size={"quick": 40, "thorough": 40}),
+            Target(name, strat, run, {"quick": [], "thorough": SWEEP12}, quick=1, thorough=n12, job_size={"quick": 100, "thorough": 100})]
+
+
+# per configuration; measured cost per case (two runs + reference powers, one worker): 0.1 - 0.7 s for k = 8 .. 24
+# (0.5 - 0.9 s for the multi-pairings), 1.3 - 1.5 s for k = 48: about 6000 CPU-seconds in total (measured), a fifth of the budget
+TARGETS = [Target("pair-bilin-54", strat_bilin54, run_bilin54, {"quick": [], "thorough": SWEEP54}, quick=1, thorough=40,
+                  job_size={"quick": 5, "thorough": 5})] + \
+    _sweep("pair-bilin-k", strat_bilin, run_bilin, 240, 240, 48) + \
+    _sweep("pair-sim-k", strat_sim, run_sim, 120, 120, 32) + \
+    _sweep("pair-fexp-k", strat_fexp, run_fexp, 40, 40, 16) + [
     Target("pair-bilin", strat_bilin, run_bilin, _cfgs(), quick=2400, thorough=12000),
     Target("pair-sim", strat_sim, run_sim, _cfgs(), quick=900, thorough=5000),
     Target("pair-fexp", strat_fexp, run_fexp, _cfgs(), quick=300, thorough=1500),
 ]
 
-KNOWN_PREDICATES = {}
+# ------------------------------------------------------------------------------ known findings (narrow matchers)
+
+def _lit_failure(case, v, variants_):
+    """the reference-checked value of a Tate / Weil variant is not bilinear or not of order r (no error, no crash, no
+    UB, and never a case whose expected value is the identity: identity handling of these variants stays checked)"""
+    d = v.details
+    if d.get("crash") or d.get("ub") or d.get("errored"):
+        return False
+    if case.get("variant") not in variants_ or d.get("identity_expected"):
+        return False
+    return bool(d.get("not_bilinear") or d.get("order_not_r"))
+
+
+def _kf_k16_lit(case, v, entry):
+    """pp_map_tatep_k16 / pp_map_weilp_k16 (and their multi-pairings): pp_dbl_lit_k16 doubles the G1 point with the
+    a = 0 formulas of y^2 = x^3 + b although every k = 16 family is y^2 = x^3 + ax (b = 0): the Miller-lite function is
+    not the function of [r]P, the Tate value is not bilinear and the Weil value does not even have order r."""
+    return v.details.get("kemb") == 16 and _lit_failure(case, v, ("pp_map_tatep_k16", "pp_map_weilp_k16"))
+
+
+def _kf_k18_lit_dtype(case, v, entry):
+    """pp_map_tatep_k18 / pp_map_weilp_k18 on D-type twists (K18_P354, K18_P508): pp_dbl_lit_k18 / pp_add_lit_k18 place
+    the line coefficients for an M-type twist only (no ep3_curve_is_twist() switch, unlike pp_dbl_lit_k12)."""
+    return v.details.get("kemb") == 18 and v.details.get("ttype") == 1 and \
+        _lit_failure(case, v, ("pp_map_tatep_k18", "pp_map_weilp_k18"))
+
+
+KNOWN_PREDICATES = {"pp_map_lit_k16_uses_a0_doubling": _kf_k16_lit,
+                    "pp_map_lit_k18_dtype_twist": _kf_k18_lit_dtype}
